@@ -41,8 +41,17 @@ def cases(draw, tier):
         cfg["H0"] = {"class": "VScriptedHFT", "numAgents": 1, "markets": list(names), "assetVolume": 10, "cashAmount": 1000,
                      "scripts": [draw(program_strategy(spec, max_actions=4, decline_weight=0))]}
         cfg["simulation"]["agents"].append("H0")
+    if draw(st.integers(0, 2)) == 0:
+        # one agent that crosses its own resting order away from the reference price: a self-trade is a fill like any other
+        k = draw(st.sampled_from([-8, -6, -4, 4, 6, 8]))
+        mi = draw(st.integers(0, 1))
+        cfg["S0"] = {"class": "VScriptedAgent", "numAgents": 1, "markets": list(names), "assetVolume": 10, "cashAmount": 1000,
+                     "scripts": [[[["L", mi, k > 0, k, 1, 4]], [["L", mi, k < 0, k, 1, None]]]]}
+        cfg["simulation"]["agents"].append("S0")
     both = draw(st.integers(0, 3)) == 0  # one rule over both markets: one halt slot and one halt counter shared by its targets
     cfg["HALT"] = {"class": "TradingHaltRule", "targetMarkets": list(names) if both else [target], "triggerChangeRate": rate, "haltingTimeLength": L}
+    if draw(st.integers(0, 3)) == 0:
+        cfg["HALT"]["referenceMarket"] = draw(st.sampled_from(names))  # obsolete key, accepted with a warning: it changes nothing
     if draw(st.integers(0, 5)) == 0:
         cfg["HALT"]["enabled"] = False
     second = draw(st.integers(0, 2)) == 0
@@ -92,6 +101,8 @@ def check_case(case):
     cut_by_session = 0
     m0 = sim.markets[0]
     L = halt["haltingTimeLength"]
+    probe_by_log = {id(kw["log"]): kw for kind, kw in A.items if kind == "hook" and kw["what"] == "execution_after"}
+    unseen_fills = 0
     for kind, kw in A.items:
         if kind == "log.direct" and kw["log_type"] == "MarketStepBeginLog":
             mk = sim.id2market[kw["market_id"]]
@@ -122,9 +133,16 @@ def check_case(case):
                 halt_round[mid] = False
             if any(v is not None for v in halted_until.values()):
                 accepted_during_halt += 1
-        if kind == "hook" and kw["what"] == "execution_after":
+        if kind == "log.write" and isinstance(kw["log"], ExecutionLog):
+            # every fill the logger saw, judged with what the probe recorded right after the rule's own hook ran; a fill that
+            # never reached the after-execution hooks is judged from its own price (the price of a running market after a fill)
             l = kw["log"]
             mid = l.market_id
+            kw = probe_by_log.get(id(l)) or {"log": l, "mp": l.price, "p0": sim.id2market[mid].get_market_price(0), "running": None}
+            if kw["running"] is None:
+                if l.time == 0:
+                    continue  # (the time-0 price still moves during step 0: no fallback judgement there)
+                unseen_fills += 1
             if mid in halted_until:
                 if halted_until[mid] is not None and not halt_round[mid]:
                     raise Violation("C16.no_fill_while_halted", f"fill at time {l.time} on the halted target market {mid} (halt in force until step {halted_until[mid]})")
@@ -139,7 +157,7 @@ def check_case(case):
                     triggered["k"] += 1
                     n_halts += 1
                     halt_round[mid] = True
-                    if kw["running"]:
+                    if kw["running"]:  # (None when the fill never reached the hooks: the schedule check at the next step decides)
                         raise Violation("C16.halts_at_once", f"price {kw['mp']!r} deviates from p0 {kw['p0']!r} by at least rate*{triggered['k']} of rule "
                                                              f"{triggered['name']} but the market is still running after the fill")
                 elif kw["running"] is False and halted_until[mid] is None:
